@@ -100,6 +100,12 @@ func (fr *Frame) iterate(ctx *callCtx, clo *closureVal, spec iterSpec) string {
 	if ghostW {
 		e.havocGhost(st)
 	}
+	{
+		// the call log of everything the callback may call is unknown at an arbitrary point of the iteration
+		lh := map[string]string{}
+		fr.loopLogHeaps(clo.fn, nil, 0, lh, map[*ssa.Function]bool{clo.fn: true})
+		e.havocLogHeaps(st, lh)
+	}
 	k := e.vc.fresh("iter_k", "Int")
 	e.assumeIn(st, and(app("<=", "0", k), app("<=", k, spec.n)))
 	envK := mkEnv(st, k)
